@@ -81,4 +81,396 @@ theorem exact_of_multiple (price : Int) (h : (10000 : Int) ∣ price) (t : Tip) 
   | pct p => exact ⟨k * p * 100, by simp only [Tip.proportion, ONE]; ring⟩
   | bp b => exact ⟨k * b, by simp only [Tip.proportion, ONE]; ring⟩
 
+/-! ## the accounting invariant of the reserve and its preservation by every method -/
+
+def ncLocked : List (Nat × Int × Bool) → Int
+  | [] => 0
+  | l :: ls => (if l.2.2 then 0 else l.2.1) + ncLocked ls
+
+def sumBreakdown : List (Nat × Int) → Int
+  | [] => 0
+  | e :: es => e.2 + sumBreakdown es
+
+def Reserve.spent (r : Reserve) : Int :=
+  r.effExec * r.execCommitted + r.effFin * r.finCommitted + r.storageCommitted + r.royaltyCommitted
+
+structure Inv (r : Reserve) : Prop where
+  prices : 0 ≤ r.cp.execPrice ∧ 0 ≤ r.cp.finPrice ∧ 0 ≤ r.cp.usdPrice ∧ 0 ≤ r.cp.statePrice ∧ 0 ≤ r.cp.archivePrice ∧ 0 ≤ r.freeCredit
+  eff : r.effExec = r.cp.execPrice + (r.cp.execPrice * r.tip.proportion) / ONE ∧
+        r.effFin = r.cp.finPrice + (r.cp.finPrice * r.tip.proportion) / ONE
+  limits : r.execCommitted ≤ r.cp.execLimit ∧ r.finCommitted ≤ r.cp.finLimit
+  bal : 0 ≤ r.balance
+  owed : 0 ≤ r.owed
+  acct : r.balance - r.owed = r.freeCredit + ncLocked r.locked - r.spent
+  roy : r.royaltyCommitted = sumBreakdown r.royaltyBreakdown ∧ 0 ≤ r.royaltyCommitted
+  sto : 0 ≤ r.storageCommitted
+  locks : ∀ l ∈ r.locked, 0 ≤ l.2.1
+
+theorem checkLimit_none {c cu l : Nat} (h : checkLimit c cu l = none) : c + cu ≤ l := by
+  unfold checkLimit at h
+  split at h
+  · cases h
+  · split at h
+    · cases h
+    · omega
+
+theorem inv_consumeExecInternal (r : Reserve) (cu : Nat) (h : Inv r) :
+    Inv (consumeExecInternal r cu).1 := by
+  unfold consumeExecInternal
+  split
+  · exact h
+  · rename_i hl
+    have hl := checkLimit_none hl
+    split
+    · exact h
+    · rename_i amount ha
+      have ha := dmulNat_some ha
+      split
+      · exact h
+      · rename_i hlt
+        split
+        · exact h
+        · rename_i b hb
+          have hb := dsub_some hb
+          obtain ⟨h1, h2, h3, h4, h5, h6, h7, h8, h9⟩ := h
+          refine ⟨h1, h2, ?_, ?_, h5, ?_, h7, h8, h9⟩
+          · exact ⟨hl, h3.2⟩
+          · simp only; omega
+          · simp only [Reserve.spent] at h6 ⊢
+            push_cast
+            rw [hb, ha]
+            linarith
+
+theorem inv_consumeFinInternal (r : Reserve) (cu : Nat) (h : Inv r) :
+    Inv (consumeFinInternal r cu).1 := by
+  unfold consumeFinInternal
+  split
+  · exact h
+  · rename_i hl
+    have hl := checkLimit_none hl
+    split
+    · exact h
+    · rename_i amount ha
+      have ha := dmulNat_some ha
+      split
+      · exact h
+      · rename_i hlt
+        split
+        · exact h
+        · rename_i b hb
+          have hb := dsub_some hb
+          obtain ⟨h1, h2, h3, h4, h5, h6, h7, h8, h9⟩ := h
+          refine ⟨h1, h2, ?_, ?_, h5, ?_, h7, h8, h9⟩
+          · exact ⟨h3.1, hl⟩
+          · simp only; omega
+          · simp only [Reserve.spent] at h6 ⊢
+            push_cast
+            rw [hb, ha]
+            linarith
+
+theorem inv_consumeStorage' (r : Reserve) (t : Storage) (n : Nat) (h : Inv r) (r' : Reserve) (res : Res)
+    (hf : consumeStorage r t n = (r', res)) (hp : res ≠ .panic) : Inv r' := by
+  unfold consumeStorage at hf
+  simp only at hf
+  have hprice : 0 ≤ (match t with | .state => r.cp.statePrice | .archive => r.cp.archivePrice) := by
+    cases t
+    · exact h.prices.2.2.2.1
+    · exact h.prices.2.2.2.2.1
+  split at hf
+  · cases hf; exact h
+  · rename_i amount ha
+    have ha := dmulNat_some ha
+    have hamt : 0 ≤ amount := by rw [ha]; exact Int.mul_nonneg hprice (Int.natCast_nonneg n)
+    split at hf
+    · cases hf; exact h
+    · rename_i hlt
+      split at hf
+      · cases hf; exact h
+      · rename_i b hb
+        have hb := dsub_some hb
+        split at hf
+        · cases hf; exact absurd rfl hp
+        · rename_i sc hsc
+          have hsc := dadd_some hsc
+          cases hf
+          obtain ⟨h1, h2, h3, h4, h5, h6, h7, h8, h9⟩ := h
+          refine ⟨h1, h2, h3, ?_, h5, ?_, h7, ?_, h9⟩
+          · simp only; omega
+          · simp only [Reserve.spent] at h6 ⊢
+            rw [hb, hsc]
+            linarith
+          · simp only; omega
+
+theorem inv_consumeStorage (r : Reserve) (t : Storage) (n : Nat) (h : Inv r)
+    (hp : (consumeStorage r t n).2 ≠ .panic) : Inv (consumeStorage r t n).1 :=
+  inv_consumeStorage' r t n h _ _ rfl hp
+
+theorem inv_setDeferred (r : Reserve) (h : Inv r) (a b : Nat) (sd : List (Storage × Nat)) :
+    Inv { r with execDeferred := a, finDeferred := b, storageDeferred := sd } :=
+  ⟨h.1, h.2, h.3, h.4, h.5, h.6, h.7, h.8, h.9⟩
+
+theorem inv_consumeExecInternal' (r : Reserve) (cu : Nat) (h : Inv r) (r' : Reserve) (res : Res)
+    (hf : consumeExecInternal r cu = (r', res)) : Inv r' := by
+  have := inv_consumeExecInternal r cu h; rw [hf] at this; exact this
+
+theorem inv_consumeFinInternal' (r : Reserve) (cu : Nat) (h : Inv r) (r' : Reserve) (res : Res)
+    (hf : consumeFinInternal r cu = (r', res)) : Inv r' := by
+  have := inv_consumeFinInternal r cu h; rw [hf] at this; exact this
+
+theorem inv_repayStorage' (ts : List Storage) : ∀ (r : Reserve), Inv r → ∀ (r' : Reserve) (res : Res),
+    repayStorage r ts = (r', res) → res ≠ .panic → Inv r' := by
+  induction ts with
+  | nil => intro r h r' res hf _; unfold repayStorage at hf; cases hf; exact h
+  | cons t ts ih =>
+    intro r h r' res hf hp
+    unfold repayStorage at hf
+    split at hf
+    · cases hf; exact h
+    · rename_i size hs
+      split at hf
+      · rename_i r1 hc
+        have i1 := inv_consumeStorage' r t size h r1 .ok hc (by simp)
+        exact ih _ (inv_setDeferred r1 i1 r1.execDeferred r1.finDeferred _) r' res hf hp
+      · rename_i r1 res1 hne hc
+        cases hf
+        exact inv_consumeStorage' r t size h _ _ hc hp
+
+theorem inv_repayAll' (r : Reserve) (h : Inv r) (r' : Reserve) (res : Res)
+    (hf : repayAll r = (r', res)) (hp : res ≠ .panic) : Inv r' := by
+  unfold repayAll at hf
+  split at hf
+  · rename_i r1 hc1
+    have i1 : Inv r1 := by have := inv_consumeExecInternal r r.execDeferred h; rw [hc1] at this; exact this
+    have i1' := inv_setDeferred r1 i1 0 r1.finDeferred r1.storageDeferred
+    simp only at hf
+    split at hf
+    · rename_i r2 hc2
+      have i2 : Inv r2 := inv_consumeFinInternal' _ _ i1' _ _ hc2
+      have i2' := inv_setDeferred r2 i2 r2.execDeferred 0 r2.storageDeferred
+      split at hf
+      · rename_i r3 hc3
+        have i3 : Inv r3 := inv_repayStorage' _ _ i2' _ _ hc3 (by simp)
+        split at hf
+        · rename_i o b ho hb
+          have ho := dsub_some ho
+          have hb := dsub_some hb
+          obtain ⟨h1, h2, h3, h4, h5, h6, h7, h8, h9⟩ := i3
+          have inv4 : Inv { r3 with owed := o, balance := b } := by
+            refine ⟨h1, h2, h3, ?_, ?_, ?_, h7, h8, h9⟩
+            · simp only; omega
+            · simp only; omega
+            · simp only [Reserve.spent] at h6 ⊢
+              omega
+          split at hf
+          · cases hf; exact inv4
+          · split at hf
+            · cases hf; exact inv4
+            · cases hf; exact inv4
+        · cases hf; exact absurd rfl hp
+        · cases hf; exact absurd rfl hp
+      · rename_i r3 res3 hne hc3
+        cases hf
+        exact inv_repayStorage' _ _ i2' _ _ hc3 hp
+    · rename_i r2 res2 hne hc2
+      cases hf
+      exact inv_consumeFinInternal' _ _ i1' _ _ hc2
+  · rename_i r1 res1 hne hc1
+    cases hf
+    have := inv_consumeExecInternal r r.execDeferred h; rw [hc1] at this; exact this
+
+theorem inv_repayAll (r : Reserve) (h : Inv r) (hp : (repayAll r).2 ≠ .panic) : Inv (repayAll r).1 :=
+  inv_repayAll' r h _ _ rfl hp
+
+theorem inv_consumeExecution' (r : Reserve) (cu : Nat) (h : Inv r) (r' : Reserve) (res : Res)
+    (hf : consumeExecution r cu = (r', res)) (hp : res ≠ .panic) : Inv r' := by
+  unfold consumeExecution at hf
+  split at hf
+  · cases hf; exact h
+  · split at hf
+    · rename_i r1 hc1
+      have i1 : Inv r1 := by have := inv_consumeExecInternal r cu h; rw [hc1] at this; exact this
+      split at hf
+      · exact inv_repayAll' r1 i1 r' res hf hp
+      · cases hf; exact i1
+    · rename_i r1 res1 hne hc1
+      cases hf
+      have := inv_consumeExecInternal r cu h; rw [hc1] at this; exact this
+
+theorem inv_consumeExecution (r : Reserve) (cu : Nat) (h : Inv r) (hp : (consumeExecution r cu).2 ≠ .panic) :
+    Inv (consumeExecution r cu).1 :=
+  inv_consumeExecution' r cu h _ _ rfl hp
+
+theorem inv_consumeFinalization (r : Reserve) (cu : Nat) (h : Inv r) : Inv (consumeFinalization r cu).1 := by
+  unfold consumeFinalization
+  split
+  · exact h
+  · exact inv_consumeFinInternal r cu h
+
+theorem sum_bumpEntry (l : List (Nat × Int)) (k : Nat) (v : Int) (l' : List (Nat × Int))
+    (h : bumpEntry l k v = some l') : sumBreakdown l' = sumBreakdown l + v := by
+  induction l generalizing l' with
+  | nil =>
+    simp only [bumpEntry] at h
+    split at h
+    · rename_i s hs; have := dadd_some hs; simp at h; subst h; simp [sumBreakdown, this]
+    · cases h
+  | cons e l ih =>
+    obtain ⟨k', x⟩ := e
+    simp only [bumpEntry] at h
+    split at h
+    · split at h
+      · rename_i s hs; have := dadd_some hs; simp at h; subst h; simp [sumBreakdown, this]; ring
+      · cases h
+    · split at h
+      · rename_i rest' hr; simp at h; subst h; simp [sumBreakdown, ih rest' hr]; ring
+      · cases h
+
+theorem inv_consumeRoyalty' (r : Reserve) (ra : Royalty) (rcp : Nat) (h : Inv r) (r' : Reserve) (res : Res)
+    (hf : consumeRoyalty r ra rcp = (r', res)) (hp : res ≠ .panic) : Inv r' := by
+  unfold consumeRoyalty at hf
+  split at hf
+  · cases hf; exact h
+  · rename_i hz
+    split at hf
+    · cases hf; exact h
+    · rename_i hneg
+      simp only at hf
+      split at hf
+      · cases hf; exact h
+      · rename_i amount hamt
+        have hnn : 0 ≤ amount := by
+          cases ra with
+          | free => simp at hamt; omega
+          | xrd a => simp at hamt; simp [Royalty.isNegative] at hneg; omega
+          | usd a =>
+            simp at hamt
+            simp [Royalty.isNegative] at hneg
+            have := dmul_some_nonneg hneg h.prices.2.2.1 hamt
+            rw [this]
+            exact Int.ediv_nonneg (Int.mul_nonneg hneg h.prices.2.2.1) (le_of_lt ONE_pos)
+        split at hf
+        · cases hf; exact h
+        · split at hf
+          · cases hf; exact h
+          · rename_i b hb
+            have hb := dsub_some hb
+            split at hf
+            · cases hf; exact absurd rfl hp
+            · rename_i bd hbd
+              have hsum := sum_bumpEntry _ _ _ _ hbd
+              split at hf
+              · cases hf; exact absurd rfl hp
+              · rename_i rc hrc
+                have hrc := dadd_some hrc
+                cases hf
+                obtain ⟨h1, h2, h3, h4, h5, h6, h7, h8, h9⟩ := h
+                refine ⟨h1, h2, h3, ?_, h5, ?_, ?_, h8, h9⟩
+                · simp only; omega
+                · simp only [Reserve.spent] at h6 ⊢
+                  rw [hb, hrc]; linarith
+                · simp only; rw [hsum, hrc]; exact ⟨by linarith [h7.1], by linarith [h7.2]⟩
+
+theorem inv_consumeRoyalty (r : Reserve) (ra : Royalty) (rcp : Nat) (h : Inv r)
+    (hp : (consumeRoyalty r ra rcp).2 ≠ .panic) : Inv (consumeRoyalty r ra rcp).1 :=
+  inv_consumeRoyalty' r ra rcp h _ _ rfl hp
+
+theorem ncLocked_append (l : List (Nat × Int × Bool)) (e : Nat × Int × Bool) :
+    ncLocked (l ++ [e]) = ncLocked l + (if e.2.2 then 0 else e.2.1) := by
+  induction l with
+  | nil => simp [ncLocked]
+  | cons x xs ih => simp [ncLocked, ih]; ring
+
+theorem inv_lockFee (r : Reserve) (v : Nat) (a : Int) (c : Bool) (ha : 0 ≤ a) (h : Inv r) :
+    Inv (lockFee r v a c).1 := by
+  unfold lockFee
+  obtain ⟨h1, h2, h3, h4, h5, h6, h7, h8, h9⟩ := h
+  have hl : ∀ l ∈ r.locked ++ [(v, a, c)], 0 ≤ l.2.1 := by
+    intro l hl
+    rcases List.mem_append.mp hl with hl | hl
+    · exact h9 l hl
+    · simp at hl; subst hl; exact ha
+  split
+  · rename_i hc
+    refine ⟨h1, h2, h3, h4, h5, ?_, h7, h8, hl⟩
+    simp only [Reserve.spent] at h6 ⊢
+    rw [ncLocked_append]; simp [hc]; linarith
+  · rename_i hc
+    split
+    · exact ⟨h1, h2, h3, h4, h5, h6, h7, h8, h9⟩
+    · rename_i b hb
+      have hb := dadd_some hb
+      refine ⟨h1, h2, h3, ?_, h5, ?_, h7, h8, hl⟩
+      · simp only; omega
+      · simp only [Reserve.spent] at h6 ⊢
+        rw [ncLocked_append]; simp [hc]; rw [hb]; linarith
+
+theorem inv_revertRoyalty (r : Reserve) (h : Inv r) : Inv (revertRoyalty r).1 := by
+  unfold revertRoyalty
+  split
+  · exact h
+  · rename_i b hb
+    have hb := dadd_some hb
+    obtain ⟨h1, h2, h3, h4, h5, h6, h7, h8, h9⟩ := h
+    refine ⟨h1, h2, h3, ?_, h5, ?_, ?_, h8, h9⟩
+    · simp only; omega
+    · simp only [Reserve.spent] at h6 ⊢
+      rw [hb]; linarith
+    · simp [sumBreakdown]
+
+theorem inv_deferExecution (r : Reserve) (cu : Nat) (h : Inv r) : Inv (deferExecution r cu).1 := by
+  unfold deferExecution
+  split
+  · exact h
+  · exact inv_setDeferred r h _ r.finDeferred r.storageDeferred
+
+theorem inv_deferFinalization (r : Reserve) (cu : Nat) (h : Inv r) : Inv (deferFinalization r cu).1 := by
+  unfold deferFinalization
+  split
+  · exact h
+  · exact inv_setDeferred r h r.execDeferred _ r.storageDeferred
+
+theorem inv_deferStorage (r : Reserve) (t : Storage) (n : Nat) (h : Inv r) : Inv (deferStorage r t n).1 := by
+  unfold deferStorage
+  split
+  · exact h
+  · exact inv_setDeferred r h r.execDeferred r.finDeferred _
+
+theorem inv_new (cp : Costing) (tip : Tip) (free : Int) (ab : Bool) (r : Reserve)
+    (h : Reserve.new cp tip free ab = some r) : Inv r ∧ r.cp = cp ∧ r.tip = tip ∧ r.freeCredit = free := by
+  unfold Reserve.new at h
+  split at h
+  · cases h
+  · rename_i hneg
+    simp only [not_or, not_lt] at hneg
+    split at h
+    · cases h
+    · rename_i effExec he
+      split at h
+      · cases h
+      · rename_i effFin hf
+        split at h
+        · cases h
+        · rename_i loan hl
+          split at h
+          · cases h
+          · rename_i start hs
+            simp only [Option.some.injEq] at h
+            subst h
+            have hq := proportion_nonneg tip
+            have hm : 0 ≤ tip.multiplier := by unfold Tip.multiplier; have := ONE_pos; omega
+            have he := dmul_some_nonneg hneg.1 hm he
+            have hf := dmul_some_nonneg hneg.2.1 hm hf
+            unfold Tip.multiplier at he hf
+            rw [eff_decomp] at he hf
+            have hl := dmulNat_some hl
+            have hs := dadd_some hs
+            have heff : 0 ≤ effExec := by
+              rw [he]; have := Int.ediv_nonneg (Int.mul_nonneg hneg.1 hq) (le_of_lt ONE_pos); omega
+            refine ⟨⟨⟨hneg.1, hneg.2.1, hneg.2.2.1, hneg.2.2.2.1, hneg.2.2.2.2.1, hneg.2.2.2.2.2⟩, ⟨he, hf⟩,
+              ⟨Nat.zero_le _, Nat.zero_le _⟩, ?_, ?_, ?_, ⟨rfl, le_refl _⟩, le_refl _, ?_⟩, rfl, rfl, rfl⟩
+            · simp only; rw [hs, hl]; have := Int.mul_nonneg heff (Int.natCast_nonneg cp.execLoan); omega
+            · simp only; rw [hl]; exact Int.mul_nonneg heff (Int.natCast_nonneg cp.execLoan)
+            · simp [Reserve.spent, ncLocked]; rw [hs]; ring
+            · intro l hl; simp at hl
+
 end Radix.Fee
